@@ -52,6 +52,11 @@ impl Rng {
     pub fn pick<'a, T>(&mut self, xs: &'a [T]) -> &'a T {
         &xs[self.below(xs.len() as u64) as usize]
     }
+    /// random bytes, random length below `n`
+    pub fn bytes_below(&mut self, n: u64) -> Vec<u8> {
+        let k = self.below(n) as usize;
+        self.bytes(k)
+    }
     pub fn bytes(&mut self, n: usize) -> Vec<u8> {
         (0..n).map(|_| self.next() as u8).collect()
     }
